@@ -75,7 +75,12 @@ impl<T> HeaderMatcher<T> {
                 RouteHeaderKind::DoesNotContain(str) => ValueCondition::DoesNotContain(str.clone()),
                 RouteHeaderKind::EndsWith(str) => ValueCondition::EndsWith(str.clone()),
                 RouteHeaderKind::StartsWith(str) => ValueCondition::StartsWith(str.clone()),
-                RouteHeaderKind::MatchRegex(marker) => ValueCondition::MatchRegex(marker.regex.clone()),
+                RouteHeaderKind::MatchRegex(marker) => ValueCondition::MatchRegex(if marker.ignore_case {
+                    // the request value is lower cased when header case is ignored: read the pattern the same way
+                    format!("(?i){}", marker.regex)
+                } else {
+                    marker.regex.clone()
+                }),
             };
 
             let header_condition = HeaderCondition {
